@@ -420,3 +420,16 @@ pub fn panic_message(p: &Box<dyn std::any::Any + Send>) -> String {
 pub fn guarded<T>(f: impl FnOnce() -> T) -> Result<T, String> {
     std::panic::catch_unwind(std::panic::AssertUnwindSafe(f)).map_err(|p| panic_message(&p))
 }
+
+/// canonical rendering of a JSON value with sorted object keys (hash-map ordered objects compare equal)
+pub fn canon_json(v: &serde_json::Value) -> String {
+    match v {
+        serde_json::Value::Object(m) => {
+            let mut keys: Vec<&String> = m.keys().collect();
+            keys.sort();
+            format!("{{{}}}", keys.iter().map(|k| format!("{:?}:{}", k, canon_json(&m[*k]))).collect::<Vec<_>>().join(","))
+        }
+        serde_json::Value::Array(a) => format!("[{}]", a.iter().map(canon_json).collect::<Vec<_>>().join(",")),
+        other => other.to_string(),
+    }
+}
